@@ -26,6 +26,9 @@ def run_check(pid, tier, root, seed=0):
         mod.run(prog, check)
         if tier == 'thorough':
             metamorphic_audit(mod, pid, root, check)
+            if not report.has_new_refutations(check):
+                from . import audit
+                audit.corpus_audit(pid, root, check, report.VERIF)
         cmd = '/venv/bin/python -m sfcv check %s --tier %s' % (pid, tier)
         return report.finish(check, seed, cmd)
     except AnalysisError as e:
